@@ -158,6 +158,7 @@ func (m *monC13) OnObs(w *World, o *Obs) {
 
 type monC06 struct {
 	base
+	revealed map[string]bool // node/swap: a key reveal with a live payment was already reported
 }
 
 func (m *monC06) Name() string { return "C06" }
@@ -181,6 +182,12 @@ func (m *monC06) OnObs(w *World, o *Obs) {
 		return
 	}
 	pending, settled := w.LN.HasLiveHTLC(o.Node, h)
+	if pending || settled {
+		if m.revealed == nil {
+			m.revealed = map[string]bool{}
+		}
+		m.revealed[fmt.Sprintf("%d/%s", o.Node, r.SwapID)] = true
+	}
 	if settled {
 		w.Probe("C06:coop_close-after-settled")
 		w.Violate("C06", "coop_close-after-payment-settled:"+shortState(r.Previous)+">"+shortState(r.Current), "node %d sent coop_close (revealing its swap key) for swap %.8s although its claim payment %.8s has settled (state %s<-%s)", o.Node, r.SwapID, h, r.Current, r.Previous)
@@ -219,8 +226,22 @@ func (m *monC06) Final(w *World) {
 			continue // opening not a real swap output (adversarial); C01 territory
 		}
 		w.Probe("C06:paid-swap-checked")
+		if m.revealed[fmt.Sprintf("%d/%s", p.Payer, si.ID)] {
+			continue // the key reveal was reported when it happened; this is its consequence
+		}
 		if so.SpentBy == "" || so.SpendPath != "preimage" {
-			w.Violate("C06", "paid-but-never-claimed:"+shortState(si.Rec.Current), "node %d paid claim invoice of swap %.8s but the opening output is not claimed with the preimage after the heal phase (state %s, spentBy=%q path=%q)", p.Payer, si.ID, si.Rec.Current, so.SpentBy, so.SpendPath)
+			cause := ""
+			if strings.HasSuffix(si.Rec.Current, "_ClaimSwap") {
+				// still in the claiming state: is the node still trying?
+				site := "btcwallet.spend"
+				if si.Rec.Chain() == "lbtc" {
+					site = "lwallet.sendraw"
+				}
+				if last, ok := w.LastSiteAt(p.Payer, site); ok && w.Sim.Now()-last > 15*time.Minute {
+					cause = ":stopped-trying"
+				}
+			}
+			w.Violate("C06", "paid-but-never-claimed:"+shortState(si.Rec.Current)+cause,"node %d paid claim invoice of swap %.8s but the opening output is not claimed with the preimage after the heal phase (state %s, spentBy=%q path=%q)", p.Payer, si.ID, si.Rec.Current, so.SpentBy, so.SpendPath)
 		}
 	}
 }
@@ -530,7 +551,7 @@ func (m *monC16) Final(w *World) {
 				if r.IsSwapIn() {
 					typ = "in"
 				}
-				w.Violate("C16", "stuck:swap-"+typ+"-"+role+":"+shortState(r.Current), "node %d: swap %.8s (swap-%s %s, %s) is still in %s after the heal phase (chain advanced past every deadline, %d restarts)", n.ID, r.SwapID, typ, role, r.Chain(), r.Current, w.Probes["heal:restart"])
+				w.Violate("C16", "stuck:swap-"+typ+"-"+role+":"+shortState(r.Current)+stuckCause(w, r),"node %d: swap %.8s (swap-%s %s, %s) is still in %s after the heal phase (chain advanced past every deadline, %d restarts)", n.ID, r.SwapID, typ, role, r.Chain(), r.Current, w.Probes["heal:restart"])
 			}
 		}
 	}
